@@ -30,7 +30,7 @@ ASSUMPTIONS = [
 ADDRS = [(0x1000, 0), (0x2000, 0), (0x2001, 5), (0xFFFF, 0xFF)] + [(1 << b, 0) for b in range(16)] + \
         [(0x2002, 1 << b) for b in range(8)]
 OD_WIDTHS = {"u8": 1, "u16": 2, "u32": 4, "u64": 8}
-OD_INDEX = {"u8": 0x3001, "u16": 0x3002, "u32": 0x3004, "u64": 0x3008, "str": 0x3009}
+OD_INDEX = {"u8": 0x3001, "u16": 0x3002, "u32": 0x3004, "u64": 0x3008, "str": 0x3009, "dom": 0x300A}
 
 
 def bounds(tier):
@@ -43,7 +43,7 @@ def _od():
     from canopen.objectdictionary import ODVariable, ObjectDictionary, datatypes as dt
     od = ObjectDictionary()
     for name, t in (("u8", dt.UNSIGNED8), ("u16", dt.UNSIGNED16), ("u32", dt.UNSIGNED32), ("u64", dt.UNSIGNED64),
-                    ("str", dt.VISIBLE_STRING)):
+                    ("str", dt.VISIBLE_STRING), ("dom", dt.DOMAIN)):
         v = ODVariable("obj_" + name, OD_INDEX[name])
         v.data_type = t
         od.add_object(v)
@@ -85,6 +85,12 @@ def cases(tier, seed):
                                     ("none", "seg3")[k % 2],
                                     "addr": list(ADDRS[(k + seed) % len(ADDRS)]) if od == "absent" else [OD_INDEX[od], 0],
                                     "seed": seed})
+    # the typed accessor's file interface and .data property (SdoVariable.open / get_data / set_data)
+    for n in range(0, N + 1):
+        for api in ("var_open_size", "var_open_nosize", "var_open_text", "var_data", "var_data_domain"):
+            for buffering in ((7, 1024) if api.startswith("var_open") else (7,)):
+                k += 1
+                out.append({"dir": "acc", "n": n, "api": api, "buf": buffering, "by": ("index", "name")[k % 2], "seed": seed})
     if tier == "quick":
         # full predecessor product for the upload() API on small lengths
         for n in range(0, 17):
@@ -357,10 +363,69 @@ def run_upload(case, st):
     st.sample({"case": case}, cap=6)
 
 
+def run_accessor(case, st):
+    """node.sdo[<index or name>].open(...) / .data : the accessor must hand every argument through unchanged."""
+    n, seed, api = case["n"], case.get("seed", 0), case["api"]
+    text = api == "var_open_text"
+    payload = text_pattern(n, seed).encode("ascii") if text else simenv.pattern(n, seed)
+    obj = "dom" if api == "var_data_domain" else "str"
+    idx = OD_INDEX[obj]
+    mux = bytes([idx & 0xFF, idx >> 8, 0])
+    for split in ([case["split"]] if "split" in case else (splits_for(n) if api.startswith("var_open") else [[n]])):
+        node, srv, bus = make()
+        srv.expected_mux = mux
+        var = node.sdo[idx] if case["by"] == "index" else node.sdo["obj_" + obj]
+        st.evaluations += 1
+        st.traces += 1
+        rc = dict(case, split=split)
+        try:
+            if api.startswith("var_open"):
+                kw = {"size": n} if api == "var_open_size" else {}
+                with var.open("wt" if text else "wb", buffering=case["buf"], **kw) as fp:
+                    off = 0
+                    for k in split:
+                        chunk = payload[off:off + k]
+                        fp.write(chunk.decode("ascii") if text else chunk)
+                        off += k
+            else:
+                var.data = payload
+            nseg = sum(1 for f in srv.frames if int(f[:2], 16) >> 5 == 0)
+            if obj == "dom" and n and not nseg:
+                st.violation("C01:accessor:domain-not-segmented", rc, "DOMAIN data is sent segmented", srv.frames[:2])
+            got = srv.store.get((idx, 0))
+            if got != payload or len(srv.commits) != 1:
+                st.violation(f"C01:accessor:download-data:{api}", rc, payload.hex(), None if got is None else got.hex())
+            for code, fr, txt in srv.violations[:1]:
+                st.violation(f"C01:accessor:frame:{code}:{api}", rc, "legal CiA 301 request", f"{fr}: {txt}")
+            # and back
+            srv.frames.clear()
+            if api == "var_open_text":
+                with var.open("rt", buffering=case["buf"]) as fp:
+                    back = fp.read().encode("ascii")
+            elif api.startswith("var_open"):
+                with var.open("rb", buffering=case["buf"]) as fp:
+                    back = fp.read()
+            else:
+                back = var.data
+            if bytes(back) != payload:
+                st.violation(f"C01:accessor:upload-data:{api}", rc, payload.hex(), bytes(back).hex())
+            for code, fr, txt in srv.violations[:1]:
+                st.violation(f"C01:accessor:frame:{code}:{api}:upload", rc, "legal CiA 301 request", f"{fr}: {txt}")
+            st.states += len(srv.frames) + 1
+            st.transitions += len(srv.frames)
+            if n > 4:
+                st.nontrivial_n += 1
+            st.outcome("accessor ok")
+        except Exception as e:  # noqa: BLE001
+            st.violation(f"C01:accessor:raises:{type(e).__name__}:{api}", rc, "transfer through the accessor", repr(e)[:150])
+
+
 def run_case(case, st):
     global ALL_COMPOSITIONS_UP_TO
     ALL_COMPOSITIONS_UP_TO = case.get("allsplits", 9)
-    if case["dir"] == "dl":
+    if case["dir"] == "acc":
+        run_accessor(case, st)
+    elif case["dir"] == "dl":
         run_download(case, st)
     else:
         run_upload(case, st)
